@@ -176,6 +176,10 @@ func VerifC04Resume() {
 		sym.Reach("resume-after-last-block")
 		sym.Assert(sym.And(stop != 0, n+1 == stop), "nothing-left-only-after-the-last-block")
 		return
+	case "graph-rejected":
+		// an invalid module graph is rejected for the original request just as well: no stream to resume
+		sym.Reach("graph-rejected")
+		return
 	case "ok":
 	default:
 		sym.Unreachable("resumed-request-served")
